@@ -424,6 +424,43 @@ def comp_loop_pairs():
             f"def r = {init}; {loop}; [[a, la], [r, lg]]")
 
 
+# a collection changed between (or during) two traversals: the second
+# traversal sees the current elements, in order
+MUTATE_THEN_ITERATE = [
+    ("def s = <<1, 2, 3>>; def r = []; for x in s do append(r, x); end; "
+     "remove(s, 3); append(s, 7); for x in s do append(r, x); end; "
+     "[r, [x for x in s], string(s), 3 in s, 7 in s]",
+     "[[1, 2, 3, 1, 2, 7], [1, 2, 7], '<<1, 2, 7>>', FALSE, TRUE]"),
+    ("def s = <<5, 6>>; def r = []; for k in [1, 2, 3] do "
+     "remove(s, 5 + k - 1); append(s, 5 + k + 1); "
+     "append(r, [x for x in s]); end; r",
+     "[[6, 7], [7, 8], [8, 9]]"),
+    ("def s = <<10, 20>>; def r = []; for i in [0, 1, 2] do "
+     "for x in s do append(r, x); end; remove(s, 20 + i); "
+     "append(s, 21 + i); end; r",
+     "[10, 20, 10, 21, 10, 22]"),
+    ("def l = [1, 2, 3]; def r = []; for x in l do append(r, x); end; "
+     "l[1] = 9; for x in l do append(r, x); end; r",
+     "[1, 2, 3, 1, 9, 3]"),
+    ("def m = <<<1 => 'a', 2 => 'b'>>>; def r = []; "
+     "for k in keys m do append(r, k); end; remove(m, 2); m[0] = 'z'; "
+     "for k in keys m do append(r, k); end; [r, [e for e in entries m]]",
+     "[[1, 2, 0, 1], [[0, 'z'], [1, 'a']]]"),
+    ("def s = <<'b', 'a'>>; def t = s; remove(t, 'a'); append(t, 'c'); "
+     "[[x for x in s], <<x for x in s>>, <<<x => 1 for x in s>>>]",
+     "[['b', 'c'], <<'b', 'c'>>, <<<'b' => 1, 'c' => 1>>>]"),
+    ("def s = <<1, 2>>; def r = []; for x in s do append(s, x + 10); "
+     "append(r, x); end; [r, [x for x in s]]",
+     "[[1, 2], [1, 2, 11, 12]]"),
+    ("<<[a, b] for a in [1] also for b in [7, 8, 9]>>",
+     "<<[1, 7], [NULL, 8], [NULL, 9]>>"),
+    ("<<[a, b] for a in [1, 2, 3] also for b in [7]>>",
+     "<<[1, 7], [2, NULL], [3, NULL]>>"),
+    ("[[a, b] for a in [1, 2, 3] also for b in [7]]",
+     "[[1, 7], [2, NULL], [3, NULL]]"),
+]
+
+
 def diff_ok(src):
     got, _ = H.run_impl_value(src)
     return (got[0] == "value" and isinstance(got[1], list)
@@ -437,7 +474,10 @@ def explore_comp_diff(chunk):
     members and prototypes, strings and lists with repeats, map
     comprehensions whose keys collide (the last one wins in both)"""
     agg = core.Agg()
-    for what, src in comp_loop_pairs():
+    pairs = list(comp_loop_pairs()) + [
+        ("mutate", "[do " + prog + "; end, " + want + "]")
+        for prog, want in MUTATE_THEN_ITERATE]
+    for what, src in pairs:
         ok, got = diff_ok(src)
         agg.count("steps")
         agg.cls(("comp-diff", what, got[0]))
